@@ -263,6 +263,8 @@ def specs(tier):
             # an interrupted version (two hunks, no tail) in the middle of the history: its blocks are referenced too
             {'nblocks': 4, 'bands': [{'closed': True, 'hunks': [[[0]]]}, {'closed': False, 'hunks': [[[1]], [[2]]]}, {'closed': True, 'hunks': [[[0], [3]]]}]},
             {'nblocks': 1, 'bands': []},
+            # a file that grew: its first block is the one an earlier version's file consists of, the second is its own
+            {'nblocks': 3, 'bands': [{'closed': True, 'hunks': [[[0]]]}, {'closed': True, 'hunks': [[[0, 1]], [[2]]]}]},
             # leftovers of killed backups in the middle of the history: a bare band directory; an unfinished band whose next hunk is zero-length
             {'nblocks': 2, 'bands': [{'closed': True, 'hunks': [[[0]]]}, {'bare': True, 'closed': False, 'hunks': []}, {'closed': True, 'hunks': [[[0]]]}]},
             {'nblocks': 3, 'bands': [{'closed': True, 'hunks': [[[0]]]}, {'closed': False, 'hunks': [[[1]]], 'empty_last': True}, {'closed': True, 'hunks': [[[0]]]}]},
@@ -283,6 +285,7 @@ def specs(tier):
             {'nblocks': 4, 'bands': [{'closed': True, 'hunks': [[[0]]]}, {'closed': False, 'hunks': [[[1]], [[2]]]}, {'closed': True, 'hunks': [[[0], [3]]]}]},
             # one entry spread over three blocks, each shared with another version at an offset
             {'nblocks': 3, 'bands': [{'closed': True, 'hunks': [[[0, 1, 2]]]}, {'closed': True, 'hunks': [[[1]], [[2], [0]]]}]},
+            {'nblocks': 3, 'bands': [{'closed': True, 'hunks': [[[0]]]}, {'closed': True, 'hunks': [[[0, 1]], [[2]]]}]},
             {'nblocks': 2, 'bands': [{'closed': True, 'hunks': [[[0]]]}, {'bare': True, 'closed': False, 'hunks': []}, {'closed': True, 'hunks': [[[0]]]}]},
             {'nblocks': 3, 'bands': [{'closed': True, 'hunks': [[[0]]]}, {'closed': False, 'hunks': [[[1]]], 'empty_last': True}, {'closed': True, 'hunks': [[[0]]]}]},
         ]
